@@ -111,15 +111,24 @@ def materialise(op, sandbox, opno=0):
             if k == "df":
                 dps[name] = _mk_df(spec)
             elif k == "csv_text":
-                p = os.path.join(sandbox.inp, "%d_%s.csv" % (opno, name))
-                with open(p, "w", encoding="utf-8", newline="") as f:
-                    f.write(spec["text"])
+                # one file per distinct content, written once: later operations of the same history read
+                # the *same unchanged file* (same path, size, mtime), as a caller re-running a script does
+                import hashlib
+
+                p = os.path.join(sandbox.inp, "%s_%s.csv" % (name, hashlib.sha1(spec["text"].encode()).hexdigest()[:12]))
+                if not os.path.exists(p):
+                    with open(p, "w", encoding="utf-8", newline="") as f:
+                        f.write(spec["text"])
                 dps[name] = Path(p)
             elif k == "csv_path":
                 dps[name] = Path(spec["path"])
             elif k == "parquet_df":
-                p = os.path.join(sandbox.inp, "%d_%s.parquet" % (opno, name))
-                _mk_df(spec).to_parquet(p, index=False)
+                import hashlib
+
+                key = hashlib.sha1(repr((spec["columns"], spec["rows"], spec.get("dtypes"))).encode()).hexdigest()[:12]
+                p = os.path.join(sandbox.inp, "%s_%s.parquet" % (name, key))
+                if not os.path.exists(p):
+                    _mk_df(spec).to_parquet(p, index=False)
                 dps[name] = Path(p)
             elif k == "url":
                 dps[name] = spec["url"]
